@@ -43,8 +43,11 @@ type C16Leaf struct {
 	On   *bool             `hcl:"on,optional"`
 }
 
+// C16Kind is a named string type (labels and attributes of named basic types).
+type C16Kind string
+
 type C16Two struct {
-	Kind  string   `hcl:"kind,label"`
+	Kind  C16Kind  `hcl:"kind,label"`
 	Name  string   `hcl:"name,label"`
 	Items []string `hcl:"items,optional"`
 	Inner *C16Leaf `hcl:"inner,block"`
@@ -574,6 +577,14 @@ func c16Case(c *core.Case) {
 		f.Body().AppendBlock(blk)
 		src = f.Bytes()
 	} else {
+		if gen.Chance(r, 0.25) {
+			// the body already holds an earlier encoding of another value of the
+			// type: EncodeIntoBody replaces the content of the body
+			prev := reflect.New(ty)
+			c16Fill(c, prev.Elem(), 2)
+			gohcl.EncodeIntoBody(prev.Interface(), f.Body())
+			c.Count("route:native-re-encode-into-used-body")
+		}
 		gohcl.EncodeIntoBody(orig.Interface(), f.Body())
 		src = f.Bytes()
 	}
